@@ -22,6 +22,11 @@ import traceback
 
 HERE = os.path.dirname(os.path.dirname(os.path.abspath(__file__)))
 sys.path.insert(0, HERE)
+# Where evidence/ and replays/ are written.  The registered commands leave it
+# unset (/verif).  Drills against a deliberately broken tree (tools/try_mutation)
+# point it at a scratch directory so that the evidence of a mutated tree can
+# never be mistaken for, or committed as, the evidence of the real tree.
+OUT = os.environ.get("TXVC_OUT") or HERE
 
 
 def load_contracts():
@@ -278,7 +283,7 @@ def main(argv=None):
 
     # ---- report
     rc = 0
-    os.makedirs(os.path.join(HERE, "replays"), exist_ok=True)
+    os.makedirs(os.path.join(OUT, "replays"), exist_ok=True)
     for ob, k in known:
         ident = f"{ob['unit']}/{ob['kind']}:{ob['label']}"
         print(f"KNOWN-FINDING: property={pid} {ident} {k['what']}")
@@ -288,7 +293,7 @@ def main(argv=None):
         if ident in seen_v:
             continue
         seen_v.add(ident)
-        rp = propmod.write_replay(pid, ob, HERE)
+        rp = propmod.write_replay(pid, ob, OUT)
         # a violation found by running the real code (bounded stand-ins) is its own replay
         reproduced = True if ob.get("native") else propmod.try_native_replay(pid, ob, rp)
         if (ob.get("model") or {}).get("__weak__") and not reproduced:
@@ -353,6 +358,7 @@ def main(argv=None):
             "undecided": len(unknown),
             "bounded_standins_not_counted": bounded_notes,
             "assumed_contracts": assumed_contracts,
+            "tree_checked": _tree_state(),
             "extraction_drops": "docstrings, annotations, decorators, `if TYPE_CHECKING` blocks",
             "samples": samples,
             "explanation": "obligations/discharged count only unbounded VCs decided by the solver; "
@@ -362,13 +368,28 @@ def main(argv=None):
         "wall_s": round(wall, 2),
         "violations": len(seen_v),
     }
-    os.makedirs(os.path.join(HERE, "evidence"), exist_ok=True)
-    with open(os.path.join(HERE, "evidence", f"{pid}.json"), "w") as f:
+    os.makedirs(os.path.join(OUT, "evidence"), exist_ok=True)
+    with open(os.path.join(OUT, "evidence", f"{pid}.json"), "w") as f:
         json.dump(ev, f, indent=1, default=str)
     print(f"{pid}: {n_dis}/{n_obl} obligations discharged, {len(known)} known finding(s), "
           f"{len(seen_v)} violation(s), {len(unknown)} undecided, units={len(units)}+{len(extras)} extra, "
           f"solver {solver_s:.1f}s, wall {wall:.1f}s -> exit {rc}")
     return rc
+
+
+def _tree_state():
+    """Which tree the obligations were generated from (HEAD and files that differ from it)."""
+    import subprocess
+    from txvc.world import REPO
+
+    def git(*a):
+        try:
+            return subprocess.run(["git", "-C", REPO, *a], capture_output=True, text=True, timeout=30).stdout.strip()
+        except Exception as e:  # evidence only: never fail a check over this
+            return f"?({e})"
+
+    dirty = [l for l in git("status", "--porcelain", "--untracked-files=no").splitlines() if l.strip()]
+    return {"repo": REPO, "head": git("rev-parse", "--short", "HEAD"), "files_differing_from_head": dirty}
 
 
 def _z3v():
